@@ -576,3 +576,221 @@ def gen_EngineCpp(repo):
     L.append("]")
     L.append("\nend Strengths.Gen")
     return "\n".join(L) + "\n"
+
+
+# =============================================================================================
+# C19: reaction equations (rdnetwork.py Reaction, value_processing label rules)
+# =============================================================================================
+def _norm(src, node):
+    return re.sub(r"\s+", "", src.seg(node))
+
+
+def _string_consts(fn, skip_doc=True):
+    """string constants of a function body in source order (docstrings skipped)"""
+    doc_nodes = set()
+    for n in ast.walk(fn):
+        if isinstance(n, (ast.FunctionDef, ast.ClassDef)) and n.body and isinstance(n.body[0], ast.Expr) \
+                and isinstance(n.body[0].value, ast.Constant) and isinstance(n.body[0].value.value, str):
+            doc_nodes.add(id(n.body[0].value))
+    out = []
+    for n in ast.walk(fn):
+        if isinstance(n, ast.Constant) and isinstance(n.value, str) and id(n) not in doc_nodes:
+            out.append((n.lineno, n.col_offset, n.value))
+    return [v for _, _, v in sorted(out)]
+
+
+def _raises(stmts):
+    return any(isinstance(s, ast.Raise) for s in stmts)
+
+
+@group
+def gen_Network(repo):
+    net = PySrc(repo, "src/strengths/rdnetwork.py")
+    vp = PySrc(repo, "src/strengths/value_processing.py")
+    L = ["namespace Strengths.Gen\n"]
+
+    # ---- k*_units_dimensions: UnitsDimensions(space=.., time=.., quantity=..) over `count`
+    dims = {}
+    over = {}
+    for fname in ("kf_units_dimensions", "kr_units_dimensions"):
+        fn = net.func(fname, "Reaction")
+        call = None
+        for n in ast.walk(fn):
+            if isinstance(n, ast.Return) and isinstance(n.value, ast.Call) and getattr(n.value.func, "id", "") == "UnitsDimensions":
+                call = n.value
+        if call is None or call.args or sorted(k.arg for k in call.keywords) != ["quantity", "space", "time"]:
+            raise AnchorLost("rdnetwork.py:%s return UnitsDimensions(space=,time=,quantity=)" % fname)
+        tr = ExprTr(net, {"count": "count"})
+        dims[fname] = {k.arg: tr.tr(k.value) for k in call.keywords}
+        # what is summed: `count += self._X[k]` inside `for k in list(self._X)`
+        o = None
+        for n in ast.walk(fn):
+            if isinstance(n, ast.For) and len(n.body) == 1 and isinstance(n.body[0], ast.AugAssign) \
+                    and isinstance(n.body[0].op, ast.Add) and getattr(n.body[0].target, "id", "") == "count":
+                m = re.fullmatch(r"self\.(\w+)\[k\]", _norm(net, n.body[0].value))
+                it = re.fullmatch(r"list\(self\.(\w+)\)", _norm(net, n.iter))
+                if m and it and m.group(1) == it.group(1):
+                    o = m.group(1)
+        init = [n for n in fn.body if isinstance(n, ast.Assign) and getattr(n.targets[0], "id", "") == "count"
+                and isinstance(n.value, ast.Constant) and n.value.value == 0]
+        if o is None or not init:
+            raise AnchorLost("rdnetwork.py:%s count loop" % fname)
+        over[fname] = o
+    if dims["kf_units_dimensions"] != dims["kr_units_dimensions"]:
+        raise AnchorLost("rdnetwork.py: kf/kr_units_dimensions formulas differ")
+    d = dims["kf_units_dimensions"]
+    L.append("/-- `Reaction.kf_units_dimensions` / `kr_units_dimensions` (identical formulas) over `count` -/")
+    L.append("def kDimSpace (count : Int) : Int := %s" % d["space"])
+    L.append("def kDimTime (count : Int) : Int := %s" % d["time"])
+    L.append("def kDimQty (count : Int) : Int := %s" % d["quantity"])
+    L.append("/-- the dictionaries whose values are summed into `count` -/")
+    L.append("def kfCountsOver : String := %s" % lean_str(over["kf_units_dimensions"]))
+    L.append("def krCountsOver : String := %s\n" % lean_str(over["kr_units_dimensions"]))
+
+    # ---- kf / kr setters: which dimension function, which acceptance flags
+    def setter(cls, prop, src=net):
+        for n in src.tree.body:
+            if isinstance(n, ast.ClassDef) and n.name == cls:
+                for f in n.body:
+                    if isinstance(f, ast.FunctionDef) and f.name == prop and any(
+                            isinstance(dd, ast.Attribute) and dd.attr == "setter" for dd in f.decorator_list):
+                        return f
+        raise AnchorLost("%s:%s.%s setter" % (src.rel, cls, prop))
+
+    def unitvar_call(fn, src=net):
+        for n in ast.walk(fn):
+            if isinstance(n, ast.Call) and _norm(src, n.func) == "valproc.process_unitvar_input":
+                args = [_norm(src, a) for a in n.args]
+                kw = {k.arg: _norm(src, k.value) for k in n.keywords}
+                return args, kw
+        raise AnchorLost("%s:%s process_unitvar_input call" % (src.rel, fn.name))
+    rows = []
+    for cls, prop in (("Reaction", "kf"), ("Reaction", "kr"), ("Species", "D"), ("Species", "density")):
+        args, kw = unitvar_call(setter(cls, prop))
+        if len(args) != 3:
+            raise AnchorLost("rdnetwork.py:%s.%s process_unitvar_input positional arguments" % (cls, prop))
+        rows.append((cls + "." + prop, args[1], args[2], kw.get("accepts_singlevalue", ""), kw.get("accepts_dict", ""), kw.get("accepts_array", "")))
+    L.append("/-- `process_unitvar_input` calls of the setters: (property, units system, dimensions, single, dict, array) -/")
+    L.append("def unitVarSetters : List (String × String × String × String × String × String) := %s\n" % lean_list(
+        ["(%s)" % ", ".join(lean_str(x) for x in r) for r in rows]))
+
+    # ---- _fromstring: separators, side count, token lengths
+    fs = net.func("_fromstring", "Reaction")
+    seps = []
+    for n in ast.walk(fs):
+        if isinstance(n, ast.Call) and isinstance(n.func, ast.Attribute) and n.func.attr == "split" and len(n.args) == 1:
+            seps.append((n.lineno, n.col_offset, const_str(n.args[0])))
+    seps = [s for _, _, s in sorted(seps)]
+    lens = []
+    for n in ast.walk(fs):
+        if isinstance(n, ast.Compare) and isinstance(n.left, ast.Call) and getattr(n.left.func, "id", "") == "len" \
+                and isinstance(n.comparators[0], ast.Constant):
+            lens.append((n.lineno, n.col_offset, "%s%s%d" % (_norm(net, n.left), {ast.Eq: "==", ast.NotEq: "!="}.get(type(n.ops[0]), "?"),
+                                                                n.comparators[0].value)))
+    lens = [s for _, _, s in sorted(lens)]
+    if not seps or not lens:
+        raise AnchorLost("rdnetwork.py:_fromstring split separators / length tests")
+    L.append("/-- `Reaction._fromstring`: separators of the `split(sep)` calls and the `len(..)` tests, in source order -/")
+    L.append("def eqSplitSeps : List String := %s" % lean_list([lean_str(s) for s in seps]))
+    L.append("def eqLenTests : List String := %s" % lean_list([lean_str(s) for s in lens]))
+    # the accumulation `if d.get(label, None) == None : d[label] = coef  else : d[label] += coef`
+    acc = None
+    for n in ast.walk(fs):
+        if isinstance(n, ast.If) and _norm(net, n.test) == "d.get(label,None)==None" and len(n.body) == 1 and len(n.orelse) == 1:
+            acc = (_norm(net, n.body[0]), _norm(net, n.orelse[0]))
+    if acc is None:
+        raise AnchorLost("rdnetwork.py:_fromstring repeated-label accumulation")
+    L.append("def eqAccumulate : String × String := (%s, %s)" % (lean_str(acc[0]), lean_str(acc[1])))
+    coef = [(_norm(net, n)) for n in ast.walk(fs) if isinstance(n, ast.Assign) and _norm(net, n.targets[0]) in ("coef", "coef,label")]
+    L.append("def eqCoefAssigns : List String := %s\n" % lean_list([lean_str(s) for s in coef]))
+
+    # ---- to_string: the text pieces
+    ts = net.func("to_string", "Reaction")
+    L.append("/-- string constants of `Reaction.to_string` in source order -/")
+    L.append("def toStringConsts : List String := %s" % lean_list([lean_str(s) for s in _string_consts(ts)]))
+    tests = [(n.lineno, _norm(net, n.test)) for n in ast.walk(ts) if isinstance(n, ast.If)]
+    L.append("def toStringTests : List String := %s\n" % lean_list([lean_str(s) for _, s in sorted(tests)]))
+
+    # ---- ssto / psto / dsto / order / rorder
+    def ret_listcomp(fname):
+        fn = net.func(fname, "Reaction")
+        for n in ast.walk(fn):
+            if isinstance(n, ast.Return) and isinstance(n.value, ast.ListComp):
+                lc = n.value
+                if len(lc.generators) != 1 or _norm(net, lc.generators[0].iter) != "species_labels" or lc.generators[0].ifs:
+                    raise AnchorLost("rdnetwork.py:%s comprehension over species_labels" % fname)
+                return lc.elt
+        raise AnchorLost("rdnetwork.py:%s return [.. for s in species_labels]" % fname)
+    nm = {"int(self._substrates.get(s,0))": "sub", "int(self._products.get(s,0))": "prod"}
+    L.append("/-- entries of `ssto`, `psto`, `dsto` for one species (sub / prod = its coefficient in the two dictionaries) -/")
+    for fname in ("ssto", "psto", "dsto"):
+        L.append("def %sEntry (sub prod : Int) : Int := %s" % (fname, ExprTr(net, nm).tr(ret_listcomp(fname))))
+    for fname in ("order", "rorder"):
+        fn = net.func(fname, "Reaction")
+        o = None
+        for n in ast.walk(fn):
+            if isinstance(n, ast.For) and len(n.body) == 1 and isinstance(n.body[0], ast.AugAssign) and isinstance(n.body[0].op, ast.Add):
+                m = re.fullmatch(r"self\.(\w+)\[k\]", _norm(net, n.body[0].value))
+                it = re.fullmatch(r"list\(self\.(\w+)\)", _norm(net, n.iter))
+                if m and it and m.group(1) == it.group(1):
+                    o = m.group(1)
+        if o is None:
+            raise AnchorLost("rdnetwork.py:%s sum loop" % fname)
+        L.append("def %sOver : String := %s" % (fname, lean_str(o)))
+    L.append("")
+
+    # ---- split(): the two Reaction(...) calls
+    sp = net.func("split", "Reaction")
+    calls = []
+    for n in ast.walk(sp):
+        if isinstance(n, ast.Call) and getattr(n.func, "id", "") == "Reaction":
+            calls.append((n.lineno, sorted((k.arg, _norm(net, k.value)) for k in n.keywords)))
+    if len(calls) != 2:
+        raise AnchorLost("rdnetwork.py:split two Reaction(...) calls")
+    L.append("/-- keyword arguments of the two `Reaction(...)` calls of `split()` (forward, reverse) -/")
+    for tag, (_, kws) in zip(("Fwd", "Rev"), sorted(calls)):
+        L.append("def split%s : List (String × String) := %s" % (tag, lean_list(["(%s, %s)" % (lean_str(a), lean_str(b)) for a, b in kws])))
+    L.append("")
+
+    # ---- equilibrium_constant: the ratio expressions and the zero tests
+    ec = net.func("equilibrium_constant", "Reaction")
+    divs = sorted((n.lineno, _norm(net, n)) for n in ast.walk(ec) if isinstance(n, ast.BinOp) and isinstance(n.op, ast.Div))
+    zeros = sorted((n.lineno, _norm(net, n.test)) for n in ast.walk(ec) if isinstance(n, ast.If) and "value==0" in _norm(net, n.test))
+    if not divs or not zeros:
+        raise AnchorLost("rdnetwork.py:equilibrium_constant ratio / zero test")
+    L.append("def kRatios : List String := %s" % lean_list([lean_str(s) for _, s in divs]))
+    L.append("def kZeroTests : List String := %s\n" % lean_list([lean_str(s) for _, s in zeros]))
+
+    # ---- RDNetwork.environments setter: empty list and the reserved name
+    es = setter("RDNetwork", "environments")
+    empty, reserved = False, None
+    for n in ast.walk(es):
+        if isinstance(n, ast.If) and _raises(n.body):
+            t = _norm(net, n.test)
+            if t == "len(environments)==0":
+                empty = True
+            m = re.fullmatch(r"e==\"(\w+)\"", t)
+            if m:
+                reserved = m.group(1)
+    if not empty or reserved is None:
+        raise AnchorLost("rdnetwork.py:RDNetwork.environments setter tests")
+    L.append("/-- `RDNetwork.environments` setter: raises on an empty array and on this reserved name -/")
+    L.append("def envEmptyRejected : Bool := true")
+    L.append("def envReserved : String := %s\n" % lean_str(reserved))
+
+    # ---- _assert_validity: the three raise conditions (normalised text)
+    av = net.func("_assert_validity", "RDNetwork")
+    conds = sorted((n.lineno, _norm(net, n.test)) for n in ast.walk(av) if isinstance(n, ast.If) and _raises(n.body))
+    if len(conds) < 4:
+        raise AnchorLost("rdnetwork.py:_assert_validity raise conditions")
+    L.append("def validityRaiseConds : List String := %s\n" % lean_list([lean_str(s) for _, s in conds]))
+
+    # ---- label rules
+    al = vp.func("assert_string_is_a_valid_label")
+    tests = sorted((n.lineno, _norm(vp, n.test)) for n in ast.walk(al) if isinstance(n, ast.If) and _raises(n.body))
+    if not tests:
+        raise AnchorLost("value_processing.py:assert_string_is_a_valid_label tests")
+    L.append("/-- raise conditions of `assert_string_is_a_valid_label` (per character `c` of the label) -/")
+    L.append("def labelRaiseConds : List String := %s" % lean_list([lean_str(s) for _, s in tests]))
+    L.append("\nend Strengths.Gen")
+    return "\n".join(L) + "\n"
